@@ -171,7 +171,7 @@ pub fn disconnect<F: Fl, const D: u8, const VIEW: bool, const OUTER: usize>(c: &
     payload::reset();
     sched::configure(c.depth, c.budget, c.kinds, c.per_site);
     let mut w = World::<F>::new(c.cap);
-    set_world::<F>(&mut w);
+    set_world::<F>(&mut *w);
     if D == 2 {
         w.tx[1] = Some(F::clone_tx(w.tx[0].as_ref().unwrap()));
     }
@@ -222,7 +222,7 @@ pub fn disconnect<F: Fl, const D: u8, const VIEW: bool, const OUTER: usize>(c: &
     ledger::check_c01(1, 1);
     ledger::check_c02();
     ledger::check_c03(c.n, 1, 1);
-    std::mem::forget(w);
+    let _ = &w; // ManuallyDrop: never dropped
 }
 
 // ==========================================================================================
@@ -254,7 +254,7 @@ pub fn add_stream<F: Fl, const SIB: bool, const OUTER: usize, const L0: u8, cons
     payload::reset();
     sched::configure(c.depth, c.budget, c.kinds, c.per_site);
     let mut w = World::<F>::new(c.cap);
-    set_world::<F>(&mut w);
+    set_world::<F>(&mut *w);
     if SIB {
         w.rx[1] = Some(F::clone_rx(w.rx[0].as_ref().unwrap()));
     }
@@ -338,7 +338,7 @@ pub fn add_stream<F: Fl, const SIB: bool, const OUTER: usize, const L0: u8, cons
     ledger::check_c01(2, 1);
     ledger::check_c02();
     ledger::check_c03(c.n, 2, 1);
-    std::mem::forget(w);
+    let _ = &w; // ManuallyDrop: never dropped
 }
 
 // ==========================================================================================
@@ -380,7 +380,7 @@ pub fn remove_stream<F: Fl, const UNSUB: bool, const LAST: bool, const OUTER: us
     unsafe { UNSUB_RESULT = 0 };
     sched::configure(c.depth, c.budget, c.kinds, c.per_site);
     let mut w = World::<F>::new(c.cap);
-    set_world::<F>(&mut w);
+    set_world::<F>(&mut *w);
     w.rx[1] = Some(F::add_stream(w.rx[0].as_ref().unwrap()));
     w.rx_stream[1] = 1;
     if !LAST {
@@ -491,7 +491,7 @@ pub fn remove_stream<F: Fl, const UNSUB: bool, const LAST: bool, const OUTER: us
         });
     }
     ledger::check_c02();
-    std::mem::forget(w);
+    let _ = &w; // ManuallyDrop: never dropped
 }
 
 // ==========================================================================================
@@ -534,7 +534,7 @@ pub fn remove_race<F: Fl, const KIND: u8, const OUTER: usize>(c: &LifeCfg) {
     payload::reset();
     sched::configure(c.depth, c.budget, c.kinds, c.per_site);
     let mut w = World::<F>::new(c.cap);
-    set_world::<F>(&mut w);
+    set_world::<F>(&mut *w);
     if KIND == 3 {
         w.rx[2] = Some(F::clone_rx(w.rx[0].as_ref().unwrap()));
     } else {
@@ -613,7 +613,7 @@ pub fn remove_race<F: Fl, const KIND: u8, const OUTER: usize>(c: &LifeCfg) {
             probe_id0: 9,
         });
     }
-    std::mem::forget(w);
+    let _ = &w; // ManuallyDrop: never dropped
 }
 
 // ==========================================================================================
@@ -669,7 +669,7 @@ pub fn churn<F: Fl, const CH: u8, const OUTER: usize>(c: &LifeCfg) {
     payload::reset();
     sched::configure(c.depth, c.budget, c.kinds, c.per_site);
     let mut w = World::<F>::new(c.cap);
-    set_world::<F>(&mut w);
+    set_world::<F>(&mut *w);
     if CH == 1 {
         ledger::declare_other(0, 0);
         ledger::declare_send(1, 0, 2);
@@ -694,7 +694,7 @@ pub fn churn<F: Fl, const CH: u8, const OUTER: usize>(c: &LifeCfg) {
         probe_tx: 0,
         probe_id0: 9,
     });
-    std::mem::forget(w);
+    let _ = &w; // ManuallyDrop: never dropped
 }
 
 // ==========================================================================================
@@ -715,7 +715,7 @@ pub fn no_receivers<F: Fl, const KIND: u8, const TWO_SENDERS: bool, const RX0_FI
     payload::reset();
     sched::configure(0, 0, 0, 0);
     let mut w = World::<F>::new(cap);
-    set_world::<F>(&mut w);
+    set_world::<F>(&mut *w);
     match KIND {
         1 => {}
         2 => {
@@ -776,7 +776,7 @@ pub fn no_receivers<F: Fl, const KIND: u8, const TWO_SENDERS: bool, const RX0_FI
             "C13: with every receiver gone try_send must hand the value back as Disconnected"
         );
     }
-    std::mem::forget(w);
+    let _ = &w; // ManuallyDrop: never dropped
 }
 
 // ------------------------------------------------------------------------------------------
